@@ -45,6 +45,9 @@ type Gen struct {
 	VZones []int        `json:"vzones"` // minutes east of UTC in which value v spells its instant (0 = "Z")
 	Cons   string       `json:"cons"`
 	TagVal int          `json:"tagval"`
+	// attribute the tag claims and the "tag" constraint use: "tag", or "camliNodeType" (which makes the
+	// planner's per-node-type candidate source eligible)
+	TagAttr string `json:"tagattr"`
 	Sorts  []string     `json:"sorts"`
 	Limits []int        `json:"limits"`
 	Pivots []int        `json:"pivots"` // item ids
@@ -181,9 +184,16 @@ type runner struct {
 	mode string
 }
 
+func (g *Gen) tagAttr() string {
+	if g.TagAttr == "" {
+		return "tag"
+	}
+	return g.TagAttr
+}
+
 func (r *runner) constraint() *search.Constraint {
 	any := &search.Constraint{Permanode: &search.PermanodeConstraint{}}
-	tag := &search.Constraint{Permanode: &search.PermanodeConstraint{Attr: "tag", Value: r.vals[r.g.TagVal-1]}}
+	tag := &search.Constraint{Permanode: &search.PermanodeConstraint{Attr: r.g.tagAttr(), Value: r.vals[r.g.TagVal-1]}}
 	switch r.g.Cons {
 	case "any":
 		return any
@@ -283,7 +293,7 @@ func runWorld(s *world.Signers, wi int, g *Gen) error {
 	if err != nil {
 		return err
 	}
-	emit(Ev{"ev": "world", "w": wi, "cls": g.Cls, "tagval": g.TagVal, "items": w.Items, "vtimes": g.VTimes, "vzones": g.VZones, "zones": g.Opts.Zones})
+	emit(Ev{"ev": "world", "w": wi, "cls": g.Cls, "tagval": g.TagVal, "tagattr": g.tagAttr(), "items": w.Items, "vtimes": g.VTimes, "vzones": g.VZones, "zones": g.Opts.Zones})
 	owner := index.NewOwner(s.KeyID[1], s.PubRef[1])
 	live, err := idx.NewMem(true)
 	if err != nil {
@@ -345,6 +355,7 @@ func randomGen(rng *rand.Rand, i, total, maxn int) Gen {
 	}
 	g := Gen{N: n, Cls: cls, TagVal: 2, Sorts: []string{"created", "mod"}, Leg: "T-random"}
 	g.Cons = []string{"any", "tag", "and"}[rng.Intn(3)]
+	g.TagAttr = []string{"tag", "camliNodeType"}[rng.Intn(2)]
 	g.Opts = Opts{Cons: g.Cons, Created: []string{"same", "dc"}[rng.Intn(2)], Zones: cls == "zoned" || rng.Intn(5) < 2}
 	if cls == "zoned" {
 		g.Opts.Created = "dc"
@@ -371,7 +382,7 @@ func randomGen(rng *rand.Rand, i, total, maxn int) Gen {
 		its = append(its, world.Item{ID: len(its) + 1, Kind: "claim", Claim: "set", PN: pn, Attr: "title", Val: 1, Date: t[0], Nano: t[1], Signer: 1})
 		g.Slots = append(g.Slots, s)
 		if rng.Intn(3) > 0 {
-			its = append(its, world.Item{ID: len(its) + 1, Kind: "claim", Claim: "add", PN: pn, Attr: "tag", Val: 2, Date: t[0], Nano: t[1], Signer: 1})
+			its = append(its, world.Item{ID: len(its) + 1, Kind: "claim", Claim: "add", PN: pn, Attr: g.TagAttr, Val: 2, Date: t[0], Nano: t[1], Signer: 1})
 			tagged = append(tagged, pn)
 		} else {
 			untagged = append(untagged, pn)
